@@ -116,14 +116,15 @@ def run(tier, seed):
     ck.trusted += ["tools/go2coq (api.EncodeI32/DecodeI32/EncodeU32/DecodeU32/EncodeI64/EncodeExternref/DecodeExternref regenerated from api/wasm.go)",
                    "hand transcription of wasm.callGoFunc (reflection marshalling per Go kind), of the float api helpers (bit reinterpretation) and of "
                    "FunctionABI.setABIArgs / amd64 register files in coq/Engine/HostCodec.v, each tied by the correspondence run",
-                   "float32<->float64 conversion modelled on bit patterns: exact on non-NaN binary32, NaN payload kept, quiet bit set (x86 CVTSS2SD/CVTSD2SS)",
+                   "float32 values are modelled as moved bit-exactly by callGoFunc (reflect.Value.Convert between float32 kinds; F07 repaired); the pre-repair "
+                   "float64 round trip survives only in a regression Example, and the harness replays fixed signalling-NaN witnesses on every run",
                    "harness/c08 (Go; its own plumbing is self-tested not to alter a signalling NaN) and checks/c08.py (case conversion, oracle)"]
     ck.assumptions += ["trampoline / entry-preamble machine code is exercised on amd64, not modelled instruction by instruction",
                        "callers pass canonical (api.Encode*) slots; 32-bit results are read through api.Decode* under the compiler "
                        "(its entry preamble leaves the upper half of a 32-bit result slot stale; the interpreter's slots are compared raw)",
                        "v128 is not part of any host function signature the builder accepts"]
     proofs_ok = ck.proofs()
-    n, k = (1000, 1) if tier == "quick" else (30000, 2)
+    n, k = (800, 1) if tier == "quick" else (30000, 2)
     if not proofs_ok:
         n *= 2
     binp, log = build_harness("c08")
@@ -217,7 +218,7 @@ def run(tier, seed):
         bad = oracle_call(c)
         md = [t for t in call_values(c) if t in bad_values]
         if not bad and not md: continue
-        if only_snan_quieting(c, bad) and not md:
+        if only_snan_quieting(c, bad):
             sig = {"kind": "f32-snan-quieted", "style": "reflect"}
         elif bad:
             other = [b for b in bad if not only_snan_quieting(c, [b])] or bad   # classify by the first failure that is not F07
